@@ -338,6 +338,8 @@ def _verify_function(qualname: str, timeout_ms=20000, cross_check=False, only=No
                     for pk, pv in o.st.env.items():
                         if isinstance(pv, ObjUnderConstruction) and pk in est.env:
                             est.env[pk] = pv
+                    for wname, (wty, wexpr) in c.witness.items():
+                        est.env[wname] = lift(it.ev_contract_expr(wexpr, est), parse_ty(wty))
                     for lname, binding in c.uses:
                         from contracts import lemmas as _lem
                         fact = _lem.instantiate(it, est, lname, binding)
@@ -350,6 +352,13 @@ def _verify_function(qualname: str, timeout_ms=20000, cross_check=False, only=No
                         except NeedFork:
                             raise Unsupported(f"ensures {ename}: condition needs a case split")
                         it.oblige(f"ensures.{ename}{tag}#p{pi}", o.st, g, "ensures", fi.node.lineno)
+                    # a call site takes a non-"maybe" raises condition as exact (normal return => condition false):
+                    # that converse is an obligation of the body too
+                    rst = State(dict(spec_env), o.st.pc, o.st.decisions)
+                    for en, when in c.raises.items():
+                        if when != "maybe":
+                            g = it.ev_contract_expr(when, rst)
+                            it.oblige(f"raises.{en}.complete{tag}#p{pi}", o.st, SV(TBool, z3.Not(zbool(g))), "raises", fi.node.lineno)
                 elif o.kind == "raise":
                     exc = o.val
                     allowed = None
